@@ -86,6 +86,8 @@ type Case struct {
 // WantScrape makes Run gather the Prometheus registry after the last step.
 var WantScrape bool
 
+var runDirs int
+
 // Run executes ops on a fresh real Runtime and snapshots after every step.
 // For histories containing "scan" ops a real directory is used.
 func (w *World) Run(ops []Op, omit, counters bool) *Case {
@@ -97,7 +99,14 @@ func (w *World) Run(ops []Op, omit, counters bool) *Case {
 	dir := ""
 	for _, o := range ops {
 		if o.K == "scan" {
-			d, err := os.MkdirTemp("", "progs")
+			// every third program directory has glob metacharacters and a space in its
+			// name: a directory is a directory, whatever it is called
+			runDirs++
+			pat := "progs"
+			if runDirs%3 == 0 {
+				pat = "rules[1] {a,b}?-"
+			}
+			d, err := os.MkdirTemp("", pat)
 			if err != nil {
 				panic(err)
 			}
